@@ -137,7 +137,7 @@ func ObserveOpen(path string, prof Profile, pageSize int, hashmap bool) (obs ope
 	}
 	defer db.Close()
 	obs.Opened = true
-	s := &Session{Prof: prof}
+	s := &Session{Prof: prof, DumpBudget: 2000000}
 	_ = db.View(func(tx *bolt.Tx) error {
 		obs.Txid = tx.ID()
 		obs.Content = hashDump(s.dumpBucket(tx, nil))
